@@ -89,11 +89,27 @@ def _worker_of(prog, drv_path):
                 tgt = [p_ for p_ in prog.fns if p_ == c or mir.strip_generics(p_) == mir.strip_generics(c)]
                 if len(tgt) == 1:
                     seen.add(tgt[0])
+    def callees(p_):
+        out_ = set()
+        for x in [p_] + prog.closures_by_root.get(p_, []):
+            bd = prog.body(x)
+            if bd is None:
+                continue
+            for _, t in bd.calls():
+                c_ = t.get("resolved") or t.get("callee") or ""
+                if mir.strip_generics(c_).startswith(prog.crate + "::"):
+                    out_ |= {q for q in prog.fns if q == c_ or mir.strip_generics(q) == mir.strip_generics(c_)}
+        return out_
     rec = []
     for p_ in seen:
-        nm = mir.strip_generics(p_)
-        bodies = [prog.body(x) for x in [p_] + prog.closures_by_root.get(p_, [])]
-        if any(bd is not None and any(bd.callee_name(t) == nm for _, t in bd.calls()) for bd in bodies):
+        # the worker is on a call cycle (it calls itself, directly or through the helpers it is split into)
+        reach, todo = set(), [p_]
+        while todo:
+            for q in callees(todo.pop()):
+                if q not in reach:
+                    reach.add(q)
+                    todo.append(q)
+        if p_ in reach:
             rec.append(p_)
     return rec[0] if len(rec) == 1 else None
 
@@ -290,7 +306,9 @@ def check_config(chk, prog, cfg):
     # pushed value is the placeholder (a fresh value, not the entry)
     pv = b.operand_term(pushes[0][1]["args"][1])
     # (a nullary function of the crate: a value that cannot depend on the entry or on anything taken from the old registry)
-    chk.expect(pv[0] == "call" and pv[1]["name"].startswith("scale_info::") and not pv[2] and "placeholder" in last(pv[1]["name"]), "R10.O",
+    # ... or a constant (`const PLACEHOLDER_TYPE: PortableType`), which depends on nothing at all
+    is_const_ = pv[0] in ("strs", "const", "int", "str", "zst") or (pv[0] == "agg" and not any(x[0] in ("var", "arg", "call", "field") for x in mir.walk(pv) if x is not pv))
+    chk.expect(is_const_ or (pv[0] == "call" and pv[1]["name"].startswith("scale_info::") and not pv[2] and "placeholder" in last(pv[1]["name"])), "R10.O",
                "retain_type:push-placeholder", W(push_bb), "pushed value: %s" % path_str(pv), cfg)
 
     # lookup first: get(&id) dominates every other call and every store; result returned on Some
@@ -420,8 +438,14 @@ def check_config(chk, prog, cfg):
         if b.callee_name(t) not in rewriters:
             continue
         ct_ = b.call_term(t, bb=bb)
-        ap = paths.access_path(b, ct_[2][0], roots={entry})
-        pass_through = len(ct_[2]) == 4 and mir.strip_transparent(ct_[2][1]) == A_TYPES and mir.strip_transparent(ct_[2][2]) == A_NEW and mir.strip_transparent(ct_[2][3]) == A_MAP
+        if METHOD is not None and len(ct_[2]) == 2:
+            # self.helper(&mut entry.place): the collections travel with self
+            ap = paths.access_path(b, ct_[2][1], roots={entry})
+            pass_through = mir.strip_transparent(ct_[2][0]) == METHOD["self"]
+            ct_ = ("call", ct_[1], (ct_[2][1],) + tuple(ct_[2][:1]))
+        else:
+            ap = paths.access_path(b, ct_[2][0], roots={entry})
+            pass_through = len(ct_[2]) == 4 and mir.strip_transparent(ct_[2][1]) == A_TYPES and mir.strip_transparent(ct_[2][2]) == A_NEW and mir.strip_transparent(ct_[2][3]) == A_MAP
         base_ = PFX + paths.norm(ap[1]) if ap is not None and ap[0] == entry else None
         for rel_ in rewriters[b.callee_name(t)]:
             q = next((x for x in id_places if base_ is not None and x == paths.norm(base_ + rel_)), None)
@@ -510,6 +534,29 @@ def check_config(chk, prog, cfg):
                 want = {int(v["discr"]) for v in td["variants"]}
                 otherwise_unreachable = b.blocks[t["otherwise"]]["term"]["k"] == "unreachable"
                 exh_.append((arms == want and otherwise_unreachable, i, "arms %s, variants %s, otherwise->%s" % (sorted(arms), sorted(want), b.blocks[t["otherwise"]]["term"]["k"])))
+    if not found:
+        for bb, t in b.calls():
+            nm_ = b.callee_name(t)
+            if nm_ not in rewriters:
+                continue
+            hp_ = [p_ for p_ in prog.fns if mir.strip_generics(p_) == nm_]
+            hb_ = prog.body(hp_[0]) if len(hp_) == 1 else None
+            if hb_ is None:
+                continue
+            PP = ("arg", 2 if METHOD is not None else 1, hb_.names.get(2 if METHOD is not None else 1))
+            for i, bl in enumerate(hb_.blocks):
+                t2 = bl["term"]
+                if t2["k"] != "switch":
+                    continue
+                d2 = hb_.operand_term(t2["discr"])
+                if d2[0] == "discr":
+                    ap2 = paths.access_path(hb_, d2[1], roots={PP})
+                    if ap2 and ap2[0] == PP and paths.norm(ap2[1]) == "" and any(x.startswith(" as ") for x in rewriters[nm_]):
+                        found = True
+                        arms = {int(a[0]) for a in t2["arms"]}
+                        want = {int(v["discr"]) for v in td["variants"]}
+                        exh_.append((arms == want and hb_.blocks[t2["otherwise"]]["term"]["k"] == "unreachable", None,
+                                     "in %s: arms %s, variants %s" % (last(nm_), sorted(arms), sorted(want))))
     if exh_:
         best = sorted(exh_, key=lambda x: not x[0])[0]
         chk.expect(best[0], "R10.M", "retain_type:match-type_def", W(best[1]), best[2] + ("; %d match(es) on the definition kind in total" % len(exh_)), cfg)
@@ -708,14 +755,21 @@ def find_rewriters(prog, rt_path):
     rt_name = mir.strip_generics(rt_path)
     prefix = rt_name.rsplit("::", 1)[0] + "::"
     out = {}
+    rt_body = prog.body(rt_path)
+    method = rt_body is not None and rt_body.arg_count == 2
     for p_, f in prog.fns.items():
         sp = mir.strip_generics(p_)
-        if not sp.startswith(prefix) or sp == rt_name or f.get("kind") != "Fn":
+        if not sp.startswith(prefix) or sp == rt_name or f.get("kind") not in ("Fn", "AssocFn"):
             continue
         hb = prog.body(p_)
-        if hb is None or hb.arg_count != 4:
+        if hb is None or hb.arg_count != (2 if method else 4):
             continue
-        P, T_, N_, M_ = [("arg", i, hb.names.get(i)) for i in (1, 2, 3, 4)]
+        if method:
+            # `fn helper(&mut self, p: &mut Place)` next to `fn retain_type(&mut self, id)`: the collections travel with self
+            SELF_, P = [("arg", i, hb.names.get(i)) for i in (1, 2)]
+            T_ = N_ = M_ = None
+        else:
+            P, T_, N_, M_ = [("arg", i, hb.names.get(i)) for i in (1, 2, 3, 4)]
         calls = [(bb, hb.call_term(t, bb=bb)) for bb, t in hb.calls()]
         others = [c for bb, c in calls if c[1]["name"] != rt_name and last(c[1]["name"]) not in ("into", "from", "iter_mut", "into_iter", "next", "deref_mut", "deref", "as_mut", "as_mut_slice")]
         if others or not [1 for bb, c in calls if c[1]["name"] == rt_name]:
@@ -729,12 +783,16 @@ def find_rewriters(prog, rt_path):
                 good = False
                 break
             rel = paths.norm(apl[1])
+            if val[0] == "agg" and val[2].get("vname") == "Some" and len(val[3]) == 1:
+                val = val[3][0]          # an optional id place written with Some(..)
+                rel = rel + "?"
             okv = val[0] == "call" and last(val[1]["name"]) in ("into", "from") and len(val[2]) == 1 and val[2][0][0] == "call" and val[2][0][1]["name"] == rt_name
             if okv:
                 rc = val[2][0]
-                a0 = paths.access_path(hb, rc[2][0], roots={P})
-                okv = a0 is not None and a0[0] == P and paths.norm(a0[1]) == rel + ".id" and [mir.strip_transparent(x) for x in rc[2][1:]] == [T_, N_, M_] \
-                    and hb.dominates(rc[1]["bb"], sbb)
+                idarg = rc[2][1] if method else rc[2][0]
+                a0 = paths.access_path(hb, idarg, roots={P})
+                passes = (len(rc[2]) == 2 and mir.strip_transparent(rc[2][0]) == SELF_) if method else [mir.strip_transparent(x) for x in rc[2][1:]] == [T_, N_, M_]
+                okv = a0 is not None and a0[0] == P and paths.norm(a0[1]) == rel + ".id" and passes and hb.dominates(rc[1]["bb"], sbb)
             if not okv:
                 good = False
                 break
